@@ -35,6 +35,8 @@ def mk_case(lens, dtype, vals, op, j=0, recv="fresh", vclass="small"):
 
 
 def run(case):
+    if case.get("big"):
+        return run_big(case)
     lens, op, j = case["lens"], case["op"], case["j"]
     dt = np.dtype(case["dtype"])
     n, tot = len(lens), sum(lens)
@@ -113,6 +115,11 @@ def run(case):
         ok = bool(np.all(np.isfinite(g.astype(np.float64)))) and np.allclose(g.astype(np.float64), exp, rtol=1e-3 if dt.itemsize == 2 else 1e-6, atol=0)
     elif case.get("vclass") == "bigfloat" and op != "getcol" and op != "col_counts":
         ok = np.allclose(g.astype(np.float64), exp.astype(np.float64), rtol=1e-6, atol=0)
+    elif op.endswith("mean0") and g.dtype.kind == "f" and g.dtype.itemsize == 2:
+        # the mean comes back in the half-precision element type: the exact column mean rounded to that type, give or take one unit in the last place
+        with np.errstate(all="ignore"):
+            e16 = exp.astype(g.dtype)
+            ok = bool(np.all((np.abs(g.astype(np.float64) - e16.astype(np.float64)) <= np.spacing(np.abs(e16)).astype(np.float64)) | (np.isnan(g) & np.isnan(e16)) | (g == e16)))
     elif op.endswith("mean0"):
         ok = np.allclose(g.astype(np.float64), exp, rtol=1e-6 if dt == np.float32 else 1e-12, atol=0, equal_nan=True)
     elif op == "getcol":
@@ -144,6 +151,61 @@ def run(case):
             if not derived.ok or np.asarray(derived.value).tolist() != [len(c) for c in cols]:
                 return violated("%s: after the caller overwrote the returned array, col_counts() of an array derived from it gives %s, expected %s" % (desc, repr(derived) if not derived.ok else short(derived.value, 160), [len(c) for c in cols]), tags + ["result-aliased"])
     return held(tags, n >= 2 and len(set(lens)) >= 2)
+
+
+CONST_CAP_CELLS = 1 << 25       # sizes taken from the constants of the source (rtmon/codeconst.py): up to 2**25 cells, given by a formula
+
+
+def run_big(case):
+    """millions of cells in a handful of rows, values given by a formula; the per-column oracle adds the rows one after the other (vectorised)"""
+    RA = CTX.lib.RaggedArray
+    dt, op, lens = np.dtype(case["dtype"]), case["op"], case["lens"]
+    tot = sum(lens)
+    tags = ["op:" + op, "kind:" + dt.kind, "big-formula"]
+    idx = np.arange(tot, dtype=np.int64)
+    flat = ((idx * 7 + idx // 11) % 3 == 0) if dt.kind == "b" else ((idx * 7 + idx // 11) % 5).astype(dt)
+    ra = RA(flat.copy(), list(lens))
+    M = max(lens)
+    tsum, cnt = np.zeros(M, dtype=np.float64 if dt.kind == "f" else np.int64), np.zeros(M, dtype=np.int64)
+    off = 0
+    for l in lens:
+        tsum[:l] += flat[off:off + l]
+        cnt[:l] += 1
+        off += l
+    f = {"sum0": lambda: ra.sum(axis=0), "np.sum0": lambda: np.sum(ra, axis=0), "mean0": lambda: ra.mean(axis=0), "col_counts": lambda: ra.col_counts()}[op]
+    exp = tsum if op.endswith("sum0") else (cnt if op == "col_counts" else tsum / cnt)
+    CTX.tick("c09:compare")
+    a = attempt(f)
+    desc = "%s of %d %s cells in rows of lengths %s" % (op, tot, dt, short(lens, 80))
+    if not a.ok:
+        return violated("%s raised %s: %s" % (desc, type(a.exc).__name__, a.exc), tags)
+    g = np.asarray(a.value)
+    if g.shape != exp.shape:
+        return violated("%s has %s entries, expected %d" % (desc, g.shape, M), tags)
+    bad = np.flatnonzero(~np.isclose(g.astype(np.float64), exp.astype(np.float64), rtol=1e-12, atol=0))
+    if len(bad):
+        return violated("%s differs from the rows that reach each column in %d columns, first at column %d: %s, expected %s" % (desc, len(bad), bad[0], g[bad[0]], exp[bad[0]]), tags)
+    if not np.array_equal(ra.ravel(), flat):
+        return violated("%s modified its operand" % desc, tags)
+    return held(tags, True)
+
+
+def const_case(rng, tier, s, form):
+    """sizes taken from the numeric constants of the source: beyond 300000 cells as formula-given arrays of a few long rows"""
+    if s > 300000:
+        if form not in ("cells", "rowlen"):
+            return None
+        gen.FORCED["used"] += 1
+        k = rng.randint(2, 7)
+        if form == "cells":
+            cuts = sorted(rng.randint(0, s) for _ in range(k - 1))
+            lens = [b - a for a, b in zip([0] + cuts, cuts + [s])]
+        else:
+            lens = [rng.randint(1, 1000) for _ in range(k - 1)]
+            lens.insert(rng.randrange(k), s)
+        return [{"big": True, "lens": lens, "dtype": d_, "op": o_} for d_, o_ in (("bool", "sum0"), ("int32", "np.sum0"), ("float64", "mean0"), ("uint8", "col_counts"), ("int64", "sum0"))]
+    c = random_case(rng, tier)
+    return c if gen.FORCED["used"] else None
 
 
 def axis_of(case):
@@ -215,6 +277,24 @@ def directed():
         c = mk_case(lens_, "int32", [(i * 7) % 50 for i in range(sum(lens_))], "getcol", jmax, "fresh", "small")
         c["jtype"] = jt_
         yield c
+    # tall: thousands of rows reach a column -- more than a narrow or low-precision element type can count exactly (float16: 2048, int8: 127)
+    for nrows in (2051, 4100, 70001):
+        lens_ = [(2 if i % 3 else 1) for i in range(nrows)]
+        lens_[5] = 0
+        tot_ = sum(lens_)
+        for dtype_ in ("float16", "float32", "int8", "uint8", "bool", "int64"):
+            k_ = np.dtype(dtype_).kind
+            vals_ = [v_ for l_ in lens_ for v_ in (1.75, 0.5)[:l_]] if k_ == "f" else ([i % 3 == 0 for i in range(tot_)] if k_ == "b" else [(i * 7) % 5 for i in range(tot_)])
+            for op_ in ("mean0", "sum0", "col_counts", "np.mean0"):
+                if nrows > 5000 and (op_, dtype_) not in (("mean0", "float16"), ("sum0", "bool"), ("col_counts", "int8"), ("np.mean0", "float32"), ("sum0", "int64")):
+                    continue
+                yield mk_case(lens_, dtype_, vals_, op_, 0, "fresh", "small")
+    # wide: a few rows of hundreds / thousands of cells (mean row length beyond 300), also with 64-bit values whose column totals leave the 64-bit range
+    for lens_ in ([301, 302, 350], [6001, 5003], [400, 0, 350, 500], [1000, 1000]):
+        for dtype_ in ("int64", "uint64", "float64", "int32", "bool"):
+            for vclass_ in ("huge", "medium", "small"):
+                for op_ in ("sum0", "mean0", "np.sum0", "col_counts"):
+                    yield gen_case(rng, lens_, dtype_, op_, vclass=vclass_)
     shapes = [[1], [3], [0, 2, 3], [2, 3, 0], [2, 0, 3], [2, 0, 0, 3], [1, 0, 0], [0, 0, 4], [5, 0, 1, 1], [2, 0, 3, 4], [0, 0, 3, 2], [1, 12], [12, 0, 1, 1], [3, 3, 3], [4, 3, 2, 1], [1, 2, 3, 4]]
     for lens in shapes:
         for dtype in ["int64", "bool", "uint8", "float64", "int8", "uint64", "float32"]:
